@@ -473,9 +473,11 @@ fn run_mask(f: &[&str]) -> Result<String, String> {
         // server read path: k bytes of unmasked frame consumed before, then the masked frame whose
         // wire payload is `payload`; the message returned is payload XOR key
         // rd<k>[c<cut>]: optionally the transport delivers the masked frame in two reads, cut `cut` bytes into it
-        let (k, cut): (usize, Option<usize>) = match k.split_once('c') {
-            Some((a, b)) => (a.parse().unwrap(), Some(b.parse().unwrap())),
-            None => (k.parse().unwrap(), None),
+        // rd<k>w<cut>: the same with a WouldBlock between the two reads (the call returns and is repeated)
+        let (k, cut, blocked): (usize, Option<usize>, bool) = match (k.split_once('c'), k.split_once('w')) {
+            (Some((a, b)), _) => (a.parse().unwrap(), Some(b.parse().unwrap()), false),
+            (_, Some((a, b))) => (a.parse().unwrap(), Some(b.parse().unwrap()), true),
+            _ => (k.parse().unwrap(), None, false),
         };
         let mut wire = Vec::new();
         if k >= 2 {
@@ -486,6 +488,9 @@ fn run_mask(f: &[&str]) -> Result<String, String> {
         h.format(payload.len() as u64, &mut wire).unwrap();
         wire.extend_from_slice(&payload);
         let chunks: Vec<String> = match cut {
+            Some(c) if k + c > 0 && k + c < wire.len() && blocked => {
+                vec![format!("d:{}", hex(&wire[..k + c])), "e:wb".to_string(), format!("d:{}", hex(&wire[k + c..]))]
+            }
             Some(c) if k + c > 0 && k + c < wire.len() => vec![format!("d:{}", hex(&wire[..k + c])), format!("d:{}", hex(&wire[k + c..]))],
             _ => vec![format!("d:{}", hex(&wire))],
         };
@@ -496,7 +501,15 @@ fn run_mask(f: &[&str]) -> Result<String, String> {
         if k >= 2 {
             ws.read().map_err(|e| error_s(&e))?;
         }
-        match ws.read() {
+        let mut r = ws.read();
+        if blocked {
+            if let Err(Error::Io(ref e)) = r {
+                if e.kind() == std::io::ErrorKind::WouldBlock {
+                    r = ws.read();
+                }
+            }
+        }
+        match r {
             Ok(Message::Binary(b)) => Ok(hex(&b)),
             Ok(m) => Err(message_s(&m)),
             Err(e) => Err(error_s(&e)),
